@@ -407,3 +407,79 @@ func clip(s string, n int) string {
 	}
 	return s
 }
+
+// canonDiff explains the difference of two canonical fingerprints: first the node
+// descriptions (type + properties, parents left out) present on one side only, and if the
+// nodes are the same, the full lines (wiring differences).
+func canonDiff(a, b string) string {
+	local := func(l string) string {
+		if i := strings.Index(l, " = "); i >= 0 {
+			l = l[i+3:]
+		}
+		if i := strings.LastIndex(l, " <- ["); i >= 0 {
+			l = l[:i]
+		}
+		return l
+	}
+	diff := func(x, y []string) (onlyX []string) {
+		m := map[string]int{}
+		for _, l := range y {
+			m[l]++
+		}
+		for _, l := range x {
+			if m[l] > 0 {
+				m[l]--
+				continue
+			}
+			onlyX = append(onlyX, l)
+		}
+		return
+	}
+	la, lb := strings.Split(a, "\n"), strings.Split(b, "\n")
+	var xa, xb []string
+	for _, l := range la {
+		xa = append(xa, local(l))
+	}
+	for _, l := range lb {
+		xb = append(xb, local(l))
+	}
+	oa, ob := diff(xa, xb), diff(xb, xa)
+	if len(oa)+len(ob) == 0 {
+		oa, ob = diff(la, lb), diff(lb, la)
+	}
+	var sb strings.Builder
+	for i := 0; i < len(oa) || i < len(ob); i++ {
+		var x, y string
+		if i < len(oa) {
+			x = oa[i]
+		}
+		if i < len(ob) {
+			y = ob[i]
+		}
+		sb.WriteString("\n  - " + clip(x, 1200) + "\n  + " + clip(y, 1200) + "\n    " + fieldDiff(x, y))
+		if i >= 2 {
+			break
+		}
+	}
+	return sb.String()
+}
+
+// fieldDiff points at the first differing position of two one-line dumps.
+func fieldDiff(x, y string) string {
+	i := 0
+	for i < len(x) && i < len(y) && x[i] == y[i] {
+		i++
+	}
+	lo := i - 40
+	if lo < 0 {
+		lo = 0
+	}
+	hx, hy := i+60, i+60
+	if hx > len(x) {
+		hx = len(x)
+	}
+	if hy > len(y) {
+		hy = len(y)
+	}
+	return fmt.Sprintf("at %d: …%s… vs …%s…", i, x[lo:hx], y[lo:hy])
+}
